@@ -182,6 +182,17 @@ impl Reasoner {
                 }
             }
         }
+
+        // The maximality test above only sees the repairs found so far, so a consistent
+        // subset that is popped before one of its consistent supersets is kept as well
+        // (which one comes first depends on the hash iteration order). Drop every
+        // candidate that is strictly contained in another one.
+        let candidates = repairs.clone();
+        repairs.retain(|repair| {
+            !candidates
+                .iter()
+                .any(|other| other.len() > repair.len() && other.is_superset(repair))
+        });
         repairs
     }
 }
